@@ -3206,14 +3206,20 @@ impl Translator {
         let accessed_ty = self.get_ty(mono, accessed.node()).unwrap();
 
         match accessed_ty {
-            Type::Nominal(Nominal::Struct(struct_def), _) => {
+            Type::Nominal(Nominal::Struct(struct_def), args) => {
                 let mut index = 0;
+                // the field types of this instance: a field whose type parameter is instantiated with void
+                // occupies no slot either
+                let field_tys = crate::statics::pat_exhaustiveness::struct_field_tys(
+                    statics,
+                    &struct_def,
+                    &args,
+                );
                 // TODO duplicated logic
-                for field in &*struct_def.fields {
+                for (field, field_ty) in struct_def.fields.iter().zip(field_tys) {
                     if field.name.v == field_name {
                         return index as u16;
                     }
-                    let field_ty = field.ty.to_solved_type(statics).unwrap();
                     if field_ty != SolvedType::Void {
                         index += 1;
                     }
